@@ -4,9 +4,13 @@ package main
 // incomplete gamma ratio, for seeds / lengths / shapes / category counts drawn from a seeded generator and fixed grids.
 
 import (
+	"compress/gzip"
 	"fmt"
+	"io"
 	"math"
 	"math/rand"
+	"os"
+	"path/filepath"
 	"strconv"
 	"strings"
 	"time"
@@ -114,7 +118,32 @@ func weightsFamily(env *Env) error {
 					L2, strings.Repeat("A", L2), strings.Repeat("C", L2))
 				argv = append(argv, "-p")
 			}
+			// one time in three the weights are written to a file (plain or compressed) instead of the standard output:
+			// the file must hold all of them once the command has returned
+			var wfile string
+			if weightsCliCount%3 != 0 {
+				wfile = filepath.Join(filepath.Dir(env.Out), "weights_out"+[]string{"", ".txt", ".gz"}[weightsCliCount%3])
+				os.Remove(wfile)
+				argv = append(argv, "-o", wfile)
+			}
 			out, errs, rc := runGoalign([]byte(input), argv...)
+			if wfile != "" && rc == 0 {
+				out = ""
+				if f, e := os.Open(wfile); e == nil {
+					var rd io.Reader = f
+					if strings.HasSuffix(wfile, ".gz") {
+						if gz, e2 := gzip.NewReader(f); e2 == nil {
+							rd = gz
+						} else {
+							rd = strings.NewReader("")
+						}
+					}
+					if b, e3 := io.ReadAll(rd); e3 == nil { // (a truncated stream reads as nothing)
+						out = string(b)
+					}
+					f.Close()
+				}
+			}
 			lines := strings.Split(strings.TrimRight(out, "\n"), "\n")
 			if rc != 0 || len(lines) != 3 {
 				ev := blank("weightscli")
@@ -185,7 +214,8 @@ func weightsFamily(env *Env) error {
 		ev := blank("incgamma")
 		lg, _ := math.Lgamma(a)
 		ev.A, ev.Lng = fstr(a), fstr(lg)
-		xs := []float64{0, 1e-6, 0.01, 0.5, 0.99, 1, 1.01, 2}
+		// (x down to the smallest magnitudes: for shapes below 1 the ratio leaves 0 steeply - I(1e-12, 0.01) = 0.76)
+		xs := []float64{0, 1e-300, 1e-100, 1e-30, 1e-12, 1e-9, 2e-8, 1e-6, 0.01, 0.5, 0.99, 1, 1.01, 2}
 		for _, f := range []float64{0.25, 0.5, 0.9, 0.99, 1, 1.01, 1.1, 1.5, 2, 4, 12, 100, 1e3, 1e5} {
 			xs = append(xs, a*f, a*f+1)
 		}
